@@ -202,8 +202,6 @@ def make_valid(rnd, ch):
     from .c11 import rename_chart, torture_names
     if rnd.random() < 0.25:
         smap, emap = torture_names(rnd, ch)
-        for k in list(smap):
-            smap[k] = smap[k].strip() or 'q'
         if len(set(smap.values())) == len(smap):
             ch = rename_chart(ch, smap, emap)
     doc = build.to_document(ch, coder=PlainCoder())
@@ -230,6 +228,10 @@ def try_import(text):
 
 
 def run_case(acc, rnd, tier, case):
+    if case % 7 == 3:
+        from .c11 import Y11
+        import_from_yaml(Y11)           # a valid %YAML 1.1 document was imported earlier in this process
+        acc.count('yaml_1_1_document_imported_before')
     ch = gen_chart(rnd, contracts=True, p_contract=0.25, max_states=rnd.choice((6, 9, 12)), max_depth=4, max_trans=8,
                    p_hist=0.5, p_final=0.3, mode=rnd.choice((None, 'history', 'orth')), priorities=(-3, -1, 0, 0, 1, 2))
     doc = make_valid(rnd, ch)
